@@ -1,7 +1,7 @@
 #!/usr/bin/env python3
 """Confirm a seeded change delivered by a sub-agent, then run the snapverif checks on it.
 
-usage: seedverify.py <prop> <k> [--props C01,C02,...] [--skip-demo] [--keep]
+usage: seedverify.py <prop> <k> [--props C01,C02,...] [--skip-demo] [--demo-only] [--keep] [--round 2]
 
  1. in the scratch worktree /tmp/wt/<prop>: clean tree -> demo passes; patch applied -> demo
     fails; touched packages that are in the stable baseline still pass their own tests.
@@ -24,8 +24,12 @@ def main():
     for i, a in enumerate(args):
         if a == "--props":
             props = args[i + 1].split(",")
-    out = "/tmp/out/%s/%s" % (prop, k)
-    wt = "/tmp/wt/%s" % prop
+    rnd = ""
+    for i, a in enumerate(args):
+        if a == "--round":
+            rnd = args[i + 1]
+    out = "/tmp/out%s/%s/%s" % (rnd if rnd != "1" else "", prop, k)
+    wt = "/tmp/wt%s/%s" % (rnd if rnd != "1" else "", prop)
     meta = json.load(open(out + "/meta.json"))
     patch = out + "/patch.diff"
     res = {"prop": prop, "k": k, "summary": meta.get("summary", "")[:200]}
@@ -108,14 +112,19 @@ def main():
     finally:
         sh("git -C /repo checkout -- .")
     res["caught_by"] = [p for p, v in res["checks"].items() if v["exit"] == 1]
+    # remember what the checks said the very first time they saw this change (before any strengthening)
+    ffile = out + "/first.json"
+    if not os.path.exists(ffile):
+        json.dump({"caught_by_first_run": [p + ("" if any("VIOLATED" in r for r in res["checks"][p]["reports"]) else " (undecided)") for p in res["caught_by"]]}, open(ffile, "w"))
+    res["caught_by_first_run"] = json.load(open(ffile))["caught_by_first_run"]
     print(json.dumps(res, indent=1))
     if "--keep" in args:
-        dst = "/verif/seeded/%s-%s" % (prop, k)
+        dst = "/verif/seeded/%s-%s%s" % (prop, ("r%s-" % rnd) if rnd not in ("", "1") else "", k)
         os.makedirs(dst, exist_ok=True)
         for f in os.listdir(out):
             if os.path.isfile(os.path.join(out, f)) and os.path.getsize(os.path.join(out, f)) < 200000:
                 shutil.copy(os.path.join(out, f), dst)
-        meta["verification"] = {k2: res.get(k2) for k2 in ("demo_clean_exit", "demo_patched_exit", "existing_tests_patched", "confirmed", "caught_by", "checks", "applied_with")}
+        meta["verification"] = {k2: res.get(k2) for k2 in ("demo_clean_exit", "demo_patched_exit", "existing_tests_patched", "confirmed", "caught_by", "caught_by_first_run", "checks", "applied_with")}
         meta["what_was_run"] = "tools/seedverify.py %s %s: demo on clean worktree (exit %s), demo with patch (exit %s), existing tests of touched stable packages with patch, then `git -C /repo apply`, quick checks %s, `git -C /repo checkout -- .`" % (prop, k, res.get("demo_clean_exit"), res.get("demo_patched_exit"), ",".join(props))
         json.dump(meta, open(dst + "/meta.json", "w"), indent=1)
     return 0
